@@ -63,12 +63,27 @@ func harnessC10SqliteReadChain() {
 	rest, _, err := st.Read(bg, from, 0)
 	vAssert(err == nil && len(rest) == n-pos, "tail-complete")
 	i := 0
+	var kept []*eventbus.StoredEvent // a consumer may hold on to what the stream handed it
 	for ev, serr := range st.ReadStream(bg, from) {
 		vAssert(serr == nil, "stream-ok")
 		vAssert(i < len(rest) && sqlSame(ev, recs[pos+i]), "stream-same-sequence")
+		kept = append(kept, ev)
 		i++
 	}
 	vAssert(i == len(rest), "stream-same-length")
+	for j, ev := range kept {
+		vAssert(sqlSame(ev, recs[pos+j]) && ev.Offset == rest[j].Offset, "streamed-events-stay-what-they-were")
+	}
+	// the whole log streamed from the start, looked at only after the stream has ended
+	var all []*eventbus.StoredEvent
+	for ev, serr := range st.ReadStream(bg, eventbus.OffsetOldest) {
+		vAssert(serr == nil, "stream-ok")
+		all = append(all, ev)
+	}
+	vAssert(len(all) == n, "stream-same-length")
+	for j, ev := range all {
+		vAssert(sqlSame(ev, recs[j]), "streamed-events-stay-what-they-were")
+	}
 	vCover("chain-done")
 }
 
